@@ -1159,6 +1159,17 @@ pub fn attack(seed: u64, rep: &mut Report) {
                     }
                 }
             }
+            // X's own earlier datagrams (its genuine handshake included), injected again
+            if rng.chance(1, 3) {
+                let old: Vec<(SocketAddr, &'static str, Vec<u8>)> = s.w.all_injected.iter().filter(|(t, from, _, _)| *t < t0 && *from == x_addr).map(|(_, f, v, b)| (*f, *v, b.clone())).collect();
+                if !old.is_empty() {
+                    let (_, via, bytes) = old[rng.usize(old.len())].clone();
+                    strategies.push(format!("replay of X's genuine {via} packet from {}", if src == x_addr { "X's address" } else { "own address" }));
+                    s.w.inject_now(src, bytes, "attacker replays a genuine datagram of X");
+                    s.tick(rep).await;
+                    rep.count("sys_attack_replays_of_genuine_datagrams");
+                }
+            }
             // active forgery: random packet claiming X, then a handshake answering the challenge
             let (rp, nonce) = random_packet(&mut rng, &x_id, &vid);
             s.w.inject_now(src, rp, "attacker random packet claiming X");
@@ -1189,7 +1200,19 @@ pub fn attack(seed: u64, rep: &mut Report) {
             };
             let inner = RefMessage::TalkReq { id: vec![0xAA, 0x01], protocol: b"sys".to_vec(), request: b"from the attacker".to_vec() };
             let pt = inner.encode();
-            let spec = HandshakeSpec { claimed_id: x_id, signer: Signer::Key(m_sk.clone()), signed: SignedData::Correct, eph: EphKey::Fresh, record, dst: vid, dst_pub: &vpub, challenge_data: &wru.aad, plaintext: &pt };
+            // mostly the strongest forgery (everything correct except the key); sometimes weaker ones
+            let signer = match rng.below(6) {
+                0 => Signer::Key(signing_key(&mut rng)),
+                1 => Signer::Raw(rng.bytes(64)),
+                _ => Signer::Key(m_sk.clone()),
+            };
+            let signed = *rng.pick(&[SignedData::Correct, SignedData::Correct, SignedData::Correct, SignedData::OtherChallenge, SignedData::WithoutEphKey, SignedData::OtherDestination]);
+            let eph = match rng.below(8) {
+                0 => EphKey::FreshUncompressed,
+                1 => EphKey::Raw(rng.bytes(33)),
+                _ => EphKey::Fresh,
+            };
+            let spec = HandshakeSpec { claimed_id: x_id, signer, signed, eph, record, dst: vid, dst_pub: &vpub, challenge_data: &wru.aad, plaintext: &pt };
             let out = handshake_packet(&mut rng, &spec);
             if let Some(k) = out.keys.clone() {
                 attacker_keys.push(k);
